@@ -72,6 +72,7 @@ type Unit struct {
 	catDone    bool
 	catTerms   []Term
 	closedChans map[string]bool
+	tableCells  map[string]*Cell
 	// cell counter at the head of each loop currently being cut by invariant: a local channel with a smaller
 	// id was made before that loop and may still hold a value sent in an earlier iteration
 	loopMarks []int
@@ -494,10 +495,33 @@ func typeAt(t types.Type, path []string, eng *Engine) types.Type {
 
 // loadPtr reads through an address.
 func (u *Unit) loadPtr(fr *Frame, st *State, p *PtrV, where string) Val {
+	if p.Cell != nil && len(p.Path) == 0 && strings.HasPrefix(p.Cell.Name, "G:") {
+		if cs, ok := u.eng.constTables[p.Cell.Name[2:]]; ok {
+			return u.constTable(st, p.Cell.Name[2:], cs, p.Elem)
+		}
+	}
 	if p.Cell != nil {
 		return u.loadCell(st, p.Cell, p.Path, p.Elem)
 	}
 	return u.loadHeap(fr, st, p, where, true)
+}
+
+// constTable: the backing array of a package-level constant table, as a cell of this unit.
+func (u *Unit) constTable(st *State, name string, cs []*ssa.Const, typ types.Type) Val {
+	if u.tableCells == nil {
+		u.tableCells = map[string]*Cell{}
+	}
+	c := u.tableCells[name]
+	if c == nil {
+		c = u.newCell(typ, "table:"+name)
+		u.tableCells[name] = c
+	}
+	if _, ok := st.cells[c]; !ok {
+		for i, k := range cs {
+			u.storeCell(st, c, []string{fmt.Sprint(i)}, k.Type(), u.constVal(k))
+		}
+	}
+	return &SliceV{Cell: c, N: len(cs), T: IntLit(int64(-200000 - c.ID)), Typ: typ}
 }
 
 func (u *Unit) loadCell(st *State, c *Cell, path []string, t types.Type) Val {
@@ -1389,6 +1413,16 @@ func (u *Unit) execLoop(fr *Frame, li *loopInfo, ins []edgeState, deliver func(f
 			continue
 		}
 		fr.vals[phi] = u.freshVal(phi.Type(), "loop_"+phi.Comment, st.pc)
+		if strings.HasPrefix(li.head.Comment, "rangeindex.loop") && isInteger(phi.Type()) {
+			// the index of a range over a slice, array or string runs from -1 to len-1
+			if sc, ok := fr.vals[phi].(*Scalar); ok {
+				for _, e := range phi.Edges {
+					if c, ok := e.(*ssa.Const); ok && c.Value != nil && c.Int64() == -1 {
+						u.assume(st.pc, And(Cmp(">=", sc.T, IntLit(-1)), Cmp("<=", sc.T, BigLit("4611686018427387904"))))
+					}
+				}
+			}
+		}
 	}
 	u.havocHeap(st, nil, "loop")
 	for c := range st.cells {
